@@ -180,7 +180,7 @@ def mk_param(rng, kind, nm, lib, irregular):
         elif irregular and r < 0.24:
             other = "Receiver" if good == "Sender" else "Sender"
             p["ty"] = rng.choice(["Vec<u8>", "oneshot::%s<%s>" % (other, inner), "Option<String>", "std::sync::Arc<u8>"])
-            p["flags"].add("known-class")
+            p["flags"].add("wrong-end-type")
         else:
             p["ty"] = rng.choice(END_PREFIX) + "%s<%s>" % (good, inner)
         p["end"] = which
@@ -245,7 +245,7 @@ def corpus(rng, tier):
     # every irregular class on every lib (bounded retry until the generator produces the flag)
     for lib in LIBS:
         for kinds, flag in ((("P", "G"), "inter-in-pattern"), (("G", "P", "O"), "inter-in-pattern"), (("E",), "bad-end-type"), (("O", "E"), "bad-end-type"),
-                            (("E", "G"), "known-class"), (("O", "G"), "mixed"), (("P",), "inter-in-pattern")):
+                            (("E", "G"), "wrong-end-type"), (("O", "G"), "mixed"), (("P",), "inter-in-pattern")):
             for _ in range(3 if tier == "quick" else 12):
                 for _try in range(200):
                     c = mk_case(rng, kinds, lib, irregular=True, interact=True, ret=False)
@@ -351,11 +351,14 @@ def same(a, b):
 def oracle(c, real):
     ps = c["params"]
     ends = [p for p in ps if p["kind"] == "E"]
-    silent = any(p["flags"] & {"mixed", "inter-in-pattern", "bad-end-type", "known-class"} for p in ps)
+    silent = any(p["flags"] & {"mixed", "inter-in-pattern", "bad-end-type"} for p in ps)
     if c["interact"] and ends and c["ret"]:
         return [] if real["cls"] == "DIAG" else ["documentation rule 4: a channel end in a method that returns a type must be refused; got %s" % real["cls"]]
     if c["interact"] and len(ends) >= 2:
         return [] if real["cls"] == "DIAG" else ["documentation rule 5: both channel ends (or one end twice) in one method must be refused; got %s" % real["cls"]]
+    if c["interact"] and any("wrong-end-type" in p["flags"] for p in ends):
+        return [] if real["cls"] == "DIAG" else ["a channel-end parameter whose type is not the end it asks for (inter_send: ..::Sender<T>, inter_recv: ..::Receiver<T>) "
+                                                 "must be refused with a diagnostic (regression of end-type-unchecked, F10); got %s" % real["cls"]]
     if not c["interact"] and ends:
         return [] if real["cls"] == "DIAG" else ["a parameter named inter_send / inter_recv without `interact` must be refused (it collides with the generated reply channel); got %s" % real["cls"]]
     if silent:
@@ -478,13 +481,15 @@ def run(rep):
 
     # ---- H-tie ----
     cs = corpus(rng, rep.tier)
-    # the known-finding witness is replayed on every run
-    wit = mk_case(random.Random(0), ("E",), "std", interact=True, ret=False)
-    wit["params"][0].update({"text": "inter_send", "tree": ("id", "inter_send"), "end": "inter_send", "flags": {"known-class"}})
-    wit["params"][0]["ty"], wit["params"][0]["coq_ty"] = ty_of("Vec<u8>")
-    wit["sig"] = "&self, inter_send: Vec<u8>"
-    wit["async"] = False
-    cs.append(wit)
+    # regression inputs of the fixed finding end-type-unchecked (F10): must be refused on every lib
+    for lib in LIBS:
+        for nm_, ty_ in (("inter_send", "Vec<u8>"), ("inter_recv", "oneshot::Sender<u8>"), ("inter_send", "oneshot::Receiver<u8>"), ("inter_recv", "Option<String>")):
+            w = mk_case(random.Random(0), ("E",), lib, interact=True, ret=False)
+            w["params"][0].update({"text": nm_, "tree": ("id", nm_), "end": nm_, "flags": {"wrong-end-type"}})
+            w["params"][0]["ty"], w["params"][0]["coq_ty"] = ty_of(ty_)
+            w["sig"] = "&self, %s: %s" % (nm_, ty_)
+            w["async"] = False
+            cs.append(w)
     jobs = [("actor", [attr_of(c), item_of([c])]) for c in cs]
     res = hook.run_parallel(jobs, tag="c14", shards=12)
     if res is None:
@@ -498,13 +503,11 @@ def run(rep):
             items.append(("c%d" % (lo + i), "show (gen %s %s [%s])" % (coqgen.b(c["interact"]), coqgen.b(bool(c["ret"])), plist)))
         shown.update(inst.coq_values("C14_gen_%d" % (lo // B), COQ_IMPORTS, items, defs=COQ_DEFS))
     rep.checker_cmds.append("coqc generated/C14_gen_*.v (model evaluated by vm_compute on the corpus)")
-    known_seen = None
     accepted = []
     for i, (c, (cls, f)) in enumerate(zip(cs, res)):
         rep.evaluations += 1
         real = real_projection(cls, f[0] if f else "", c)
         model = model_projection(shown["c%d" % i], c)
-        known = any("known-class" in p["flags"] for p in c["params"])
         rep.count("lib", c["lib"])
         rep.count("n_params", str(len(c["params"])))
         rep.count("interact/returning", "%s/%s" % (c["interact"], bool(c["ret"])))
@@ -518,13 +521,6 @@ def run(rep):
             rep.sample({"method": method_text(c), "attr": attr_of(c), "real": {k: real.get(k) for k in KEYS if k in real}, "model": shown["c%d" % i][:300]})
         if real["cls"] == "OK":
             accepted.append(c)
-        if c is wit:
-            known_seen = (real["cls"] == "OK")
-            continue
-        if known and real["cls"] == "DIAG" and real.get("diag") in ("DEndType", "DOther") and model["cls"] == "OK":
-            rep.notes.append("known class end-type-unchecked no longer reproduces on %s" % method_text(c))
-            rep.oblige(True)
-            continue
         if same(real, model):
             # agreement with the model is not enough for inputs inside the envelope: the oracle must hold too
             orc = oracle(c, real)
@@ -540,16 +536,6 @@ def run(rep):
         else:
             rep.violation("htie_%d_%s" % (i, c["kinds"]), dict(describe(c), what="the real macro and the model differ inside C14's projection, the documented oracle accepts the real output "
                           "(model drift, or a change the documentation is silent about)", observed=real, expected=model), found=False)
-
-    # known finding replay
-    kf = [k for k in known_findings()["finding"] if k.get("property") == PID and k.get("class") == "end-type-unchecked"]
-    if known_seen and kf:
-        rep.known_finding("end-type-unchecked: `inter_send: Vec<u8>` is accepted as a channel end (oneshot_get_type compares `target.eq(target)`): "
-                          "the handle declares channel::<u8>() and returns oneshot::Receiver<u8> while the message field is typed Vec<u8>")
-    elif known_seen and not kf:
-        rep.violation("end_type_unchecked", dict(describe(wit), what="`inter_send: Vec<u8>` accepted as a channel end and not listed in known_findings.txt"), found=True)
-    elif kf:
-        rep.notes.append("known finding end-type-unchecked no longer reproduces (fixed?)")
 
     # ---- T-tie: wf_C14 on real expansions, the runtime theorem instantiated at them ----
     groups = {}
